@@ -573,8 +573,14 @@ func (x *X) call(fn *ssa.Function, args []Value, bind []Value) Value {
 	}
 	var prev *ssa.BasicBlock
 	blk := fn.Blocks[0]
+	symArrive := false
 	for {
-		fr.visits[blk.Index]++
+		// only arrivals through a solver-decided branch count against the unwinding bound;
+		// loops with concrete trip counts are bounded by the step budget
+		if symArrive {
+			fr.visits[blk.Index]++
+		}
+		symArrive = false
 		if n := fr.visits[blk.Index]; n > x.St.MaxUnwind {
 			x.St.MaxUnwind = n
 		}
@@ -623,6 +629,7 @@ func (x *X) call(fn *ssa.Function, args []Value, bind []Value) Value {
 			switch ins := ins.(type) {
 			case *ssa.If:
 				c := x.get(fr, ins.Cond).(*T)
+				symArrive = !c.IsConst()
 				if x.branch(c) {
 					next = blk.Succs[0]
 				} else {
